@@ -1,12 +1,14 @@
 import SV.Model.C01
 import SV.Lemmas.Poly
+import SV.Lemmas.C01
 import Mathlib.Algebra.BigOperators.Intervals
 /-!
 # C01 — univariate parser: every well-formed polynomial string means what it says
 
 Property theorems only.  Evaluation half (this file, any field): the square-and-multiply loop of
 `f64::powi` is the power function, and `eval_simple_polynomial` of a coefficient vector is
-`Σ c_k x^k`.  The parser half (`parse_render`) is in `SV.Props.C01Parse`.
+`Σ c_k x^k`.  The parser half (`parse_render`, `parse_means`) follows in the second section; the
+grammar (`TermSyn`, `render`, `WellFormed`) is defined in `SV.Lemmas.C01`.
 -/
 namespace SV.Props.C01
 open SV SV.Poly Finset
@@ -35,5 +37,132 @@ theorem eval_eq_sum (cs : List K) (x : K) :
 /-- … and it is Mathlib's polynomial evaluation of the polynomial with those coefficients. -/
 theorem eval_eq_polynomial_eval (cs : List K) (x : K) :
     evalSimple cs x = (ofCoeffs cs).eval x := evalSimple_eq cs x
+
+end SV.Props.C01
+
+/-! ## Parser half: every string of the documented language is accepted and means what it says
+
+The language is given by its abstract syntax (`SV.C01.TermSyn`: sign, optional plain-decimal
+coefficient `UDec`, body `const | var | varPow digits`) and `SV.C01.render v leadPlus ts`, the text
+without white space.  A string `s` belongs to the language iff `stripWs cc s = render v lead ts` for
+some well-formed `ts` — so *any spacing* (every way of inserting white-space characters anywhere) is
+covered by the hypothesis itself.  The statements are for every character classification `cc` with
+the disjointness facts `CharClass.Sane` (proved for the driver's `stdClass`), every alphabetic
+variable letter and every exponent cap. -/
+namespace SV.Props.C01
+open SV SV.Poly SV.Text SV.C01
+
+/-- The character classification the driver runs with has the disjointness facts the theorems assume. -/
+theorem std_class_sane : stdClass.Sane := stdClass_sane
+
+/-- A rendering is one of the texts the theorems speak about (it contains no white space). -/
+theorem render_is_normal_form {cc : CharClass} (hcc : cc.Sane) {cap : Nat} {v : Char}
+    (hv : cc.isAlpha v = true) (lead : Bool) {ts : List TermSyn} (hwf : WellFormed cap ts) :
+    stripWs cc (render v lead ts) = render v lead ts := stripWs_render hcc hv lead hwf
+
+/-- `maxPow` is the largest power written. -/
+theorem maxPow_spec (ts : List TermSyn) :
+    (∀ t ∈ ts, t.pow ≤ maxPow ts) ∧ (ts ≠ [] → ∃ t ∈ ts, t.pow = maxPow ts) :=
+  ⟨fun _ ht => pow_le_maxPow ht, maxPow_attained⟩
+
+/-- The number a decimal spelling denotes is integer part + fraction part / 10^(fraction digits):
+`3`, `3.`, `.5`, `007`, `12.50` all have their usual value. -/
+theorem spelling_value (u : UDec) :
+    u.value = (digitsVal u.ip : ℚ) + (digitsVal u.fp : ℚ) / (10 : ℚ) ^ u.fp.length := u.value_eq
+
+/-- The dense accumulation `coeffs[power] += coeff` from `vec![0.0; max_power + 1]`, for any list of
+`(coefficient, power)` pairs: the vector has `max power + 1` entries and position `k` holds the sum of
+the coefficients of the pairs of power `k` (0 where there is none, also beyond the end). -/
+theorem dense_spec (terms : List (Num × Nat)) :
+    (dense terms).length = terms.foldl (fun m t => max m t.2) 0 + 1 ∧
+      ∀ k, ((dense terms).getD k Num.zero).val =
+        ((terms.filter fun t => decide (t.2 = k)).map fun t => t.1.val).sum :=
+  ⟨dense_length terms, dense_val terms⟩
+
+/-- **Every string of the grammar is accepted, and the coefficient vector is what the string says.**
+For every well-formed term list `ts` (any number and order of terms, repeated powers, optional leading
+sign, implicit coefficients, every plain decimal spelling, exponents with leading zeros up to the cap),
+every alphabetic letter `v` and every text `s` whose white-space-free form is the rendering of `ts`:
+the parser accepts; the variable is `v` iff some term writes it; the vector has `max power + 1`
+entries; and position `k` holds the sum of the signed coefficients of the terms of power `k`
+(like powers summed, missing powers zero — also beyond the end).  Holds for `ts = []` too: the empty
+text is read as the zero polynomial `[0]`. -/
+theorem parse_render {cc : CharClass} (hcc : cc.Sane) (cap : Nat) {v : Char}
+    (hv : cc.isAlpha v = true) (lead : Bool) {ts : List TermSyn} (hwf : WellFormed cap ts)
+    {s : List Char} (hs : stripWs cc s = render v lead ts) :
+    ∃ p, parse cc cap s = .ok p ∧
+      p.var = (if writesVar ts then some v else none) ∧
+      p.coeffs.length = maxPow ts + 1 ∧
+      ∀ k, (p.coeffs.getD k Num.zero).val =
+        ((ts.filter fun t => decide (t.pow = k)).map TermSyn.value).sum :=
+  parse_render_spec hcc (VarOK.of_alpha hcc hv) hwf (fun _ => hv) hs
+
+/-- **… and evaluates to the mathematical value of the string at every point**: with `eval_eq_sum`
+(at `K = ℚ`), evaluating the parsed coefficients at `x` gives `Σ_t value(t)·x^(pow t)` over the terms
+as written.  Order independence, repeated powers, missing powers, spacing, the variable letter and
+every decimal spelling (`3`, `3.`, `.5`, `007`, exponent `007`) are special cases of this one
+statement: the right-hand side does not depend on any of them. -/
+theorem parse_means {cc : CharClass} (hcc : cc.Sane) (cap : Nat) {v : Char}
+    (hv : cc.isAlpha v = true) (lead : Bool) {ts : List TermSyn} (hwf : WellFormed cap ts)
+    {s : List Char} (hs : stripWs cc s = render v lead ts) :
+    ∃ p, parse cc cap s = .ok p ∧
+      ∀ x : ℚ, evalSimple (p.coeffs.map Num.val) x = (ts.map fun t => t.value * x ^ t.pow).sum := by
+  obtain ⟨p, hp, _, hlen, hval⟩ := parse_render hcc cap hv lead hwf hs
+  refine ⟨p, hp, fun x => ?_⟩
+  rw [eval_eq_sum]
+  exact coeffs_sum hlen hval x
+
+/-- Order independence, spelled out: two term lists that are permutations of each other (in any
+spacing, with either leading-sign convention) parse to polynomials with the same values. -/
+theorem parse_perm {cc : CharClass} (hcc : cc.Sane) (cap : Nat) {v : Char}
+    (hv : cc.isAlpha v = true) (lead lead' : Bool) {ts ts' : List TermSyn} (hwf : WellFormed cap ts)
+    (hperm : ts.Perm ts') {s s' : List Char} (hs : stripWs cc s = render v lead ts)
+    (hs' : stripWs cc s' = render v lead' ts') :
+    ∃ p p', parse cc cap s = .ok p ∧ parse cc cap s' = .ok p' ∧
+      ∀ x : ℚ, evalSimple (p.coeffs.map Num.val) x = evalSimple (p'.coeffs.map Num.val) x := by
+  have hwf' : WellFormed cap ts' := fun t ht => hwf t (hperm.mem_iff.2 ht)
+  obtain ⟨p, hp, hx⟩ := parse_means hcc cap hv lead hwf hs
+  obtain ⟨p', hp', hx'⟩ := parse_means hcc cap hv lead' hwf' hs'
+  refine ⟨p, p', hp, hp', fun x => ?_⟩
+  rw [hx, hx']
+  exact (hperm.map _).sum_eq
+
+/-! ### non-vacuity -/
+
+/-- "-2x^3 - 4x + 1" is read as `1 − 4x − 2x³` (the model evaluated by the kernel) -/
+example : ∃ p, parse stdClass 65536 "-2x^3 - 4x + 1".toList = .ok p ∧ p.var = some 'x' ∧
+    p.coeffs.map Num.val = [1, -4, 0, -2] := by
+  refine ⟨⟨[.add .zero (.dec ⟨false, 1, 0⟩), .add .zero (.dec ⟨true, 4, 0⟩), .zero,
+    .add .zero (.dec ⟨true, 2, 0⟩)], some 'x'⟩, rfl, rfl, ?_⟩
+  norm_num [Num.val, Dec.val, Num.zero]
+
+/-- " .5 y ^ 007+y" is read as `y + y⁷/2` -/
+example : ∃ p, parse stdClass 65536 " .5 y ^ 007+y".toList = .ok p ∧ p.var = some 'y' ∧
+    p.coeffs.map Num.val = [0, 1, 0, 0, 0, 0, 0, 1/2] := by
+  refine ⟨⟨[.zero, .add .zero .one, .zero, .zero, .zero, .zero, .zero,
+    .add .zero (.dec ⟨false, 5, 1⟩)], some 'y'⟩, rfl, rfl, ?_⟩
+  norm_num [Num.val, Dec.val, Num.zero, Num.one]
+
+/-- the term list of " .5 y ^ 007+y" -/
+def exampleTerms : List TermSyn :=
+  [⟨false, some ⟨[], ['5'], true⟩, .varPow ['0', '0', '7']⟩, ⟨false, none, .var⟩]
+
+/-- the hypotheses of `parse_render` are satisfiable: this text is a spacing of a well-formed rendering … -/
+example : WellFormed 65536 exampleTerms ∧ stdClass.isAlpha 'y' = true ∧
+    stripWs stdClass " .5 y ^ 007+y".toList = render 'y' false exampleTerms :=
+  ⟨wellFormed_of_all (by decide), by decide, by decide⟩
+
+/-- … and `parse_means` then gives its value `½·x⁷ + x` at every point -/
+example : ∃ p, parse stdClass 65536 " .5 y ^ 007+y".toList = .ok p ∧
+    ∀ x : ℚ, evalSimple (p.coeffs.map Num.val) x = 1 / 2 * x ^ 7 + x := by
+  obtain ⟨p, hp, hx⟩ := parse_means std_class_sane 65536 (v := 'y') (by decide) false
+    (ts := exampleTerms) (wellFormed_of_all (by decide)) (s := " .5 y ^ 007+y".toList) (by decide)
+  refine ⟨p, hp, fun x => ?_⟩
+  rw [hx]
+  have h5 : digitsVal ([] ++ ['5']) = 5 := by decide
+  have h7 : digitsVal ['0', '0', '7'] = 7 := by decide
+  simp only [exampleTerms, List.map_cons, List.map_nil, List.sum_cons, List.sum_nil, TermSyn.value,
+    TermSyn.pow, Body.pow, coefValue, UDec.value, UDec.mant, h5, h7]
+  norm_num
 
 end SV.Props.C01
